@@ -20,7 +20,7 @@ RULE = ("Programs: G-core generated programs (let hints none / partial; failing 
         "the program (positions from the real parser via the hook; 3..5 random ones per program, statements "
         "included) is wrapped by the real `reftest-wrap-in-dbg`; the result must parse, print the same stdout and end "
         "the same way (same exit status and same error message, or none); stderr may only gain lines. "
-        "add-type-annotation: every symbol and function-signature position (3..5 per program) is given to the real "
+        "add-type-annotation: every symbol, function-signature and closure-header position (3..5 per program) is given to the real "
         "`reftest-add-type-annotation`; where it inserts an annotation the result must parse, `garden check` must "
         "report no error message that the original did not have, and the run must print and end the same. "
         "Non-trivial = the tool changed the source (and, for annotations, inserted a non-primitive type); distinct = "
@@ -205,6 +205,10 @@ def gen_fun_value_template(r):
     if form == 2:
         return (f"fun make() {{\n  fun({params}){ret_hint} {{ {body} }}\n}}\nlet fv = make()\nlet res = fv({args})\n"
                 f"println(string_repr(res))\n")
+    if form == 3 and r.bool():
+        return ("fun both<T>(x: T): List<T> {\n  let get = fun() { x }\n  [get(), get()]\n}\n"
+                "fun pairs<T>(x: T): List<(T, T)> {\n  [x].map(fun(v) { (v, v) })\n}\n"
+                "println(string_repr(both(1)))\nprintln(string_repr(both(\"a\")))\nprintln(string_repr(pairs(2)))\n")
     if form == 3:
         return (f"fun wrap<T>(x: T): List<T> {{\n  let f = fun() {{\n    let v = x\n    [v]\n  }}\n  f()\n}}\n"
                 f"fun helper<T>(y: T): T {{ y }}\nfun go() {{\n  let hv = helper\n  println(string_repr(hv(1)))\n}}\n"
@@ -342,6 +346,13 @@ def check_annot(case, ctx) -> Res:
     src = case["src"]
     cls = ["src:" + case["kind"]]
     pos = positions(ctx, src, ("symbol",))
+    if pos is not None:
+        # a function literal has no name symbol: its return-type annotation is offered when the cursor is in its
+        # parameter list, so the opening parenthesis of every `fun(` is a position too (listed twice: they are few)
+        sb = src.encode("utf-8")
+        for m in re.finditer(rb"\bfun\s*\(", sb):
+            o = m.end() - 1
+            pos += [(o, o + 1, "closure-header"), (o, o + 1, "closure-header")]
     if not pos:
         return Res(ok=True, classes=tuple(cls + ["unparseable-or-empty"]))
     path, base = base_run(ctx, src)
